@@ -110,12 +110,12 @@ func (p *c04) chainAt(i int) *c04chain {
 		c.fill(nil)
 		un := []string{"-", "not", "+"}
 		switch deco {
-		case decoUnary0:
-			c.setPrefix(0, un[i%3])
-		case decoUnary1:
-			c.setPrefix(1, un[i%3])
-		case decoUnaryLast:
-			c.setPrefix(n, un[i%3])
+		case decoUnary0, decoUnary1, decoUnaryLast:
+			pos := map[int]int{decoUnary0: 0, decoUnary1: 1, decoUnaryLast: n}[deco]
+			c.setPrefix(pos, un[i%3])
+			if (i/3)%2 == 1 && c.prefix[pos] != "" {
+				c.enrich(pos, 9) // the operand of the prefix operator in parentheses
+			}
 		case decoNotFirst:
 			c.setPrefix(0, "not")
 			c.setPrefix(n, "-")
@@ -174,7 +174,9 @@ func (c *c04chain) enrich(i, form int) {
 	if !ok {
 		return
 	}
-	switch form % 9 {
+	switch form % 10 {
+	case 9:
+		c.operands[i] = &gen.EGroup{X: nm} // (v): written without a blank after a prefix operator it looks like a call
 	case 8:
 		c.operands[i] = &gen.ENum{Text: strconv.Itoa(11 + i)} // a number literal (self-identifying: 11, 12, ...)
 	case 0:
@@ -459,6 +461,18 @@ func (p *c04) Run(i int) (res fw.Result) {
 	sf, sr := astShape(tf.Root()), astShape(tr.Root())
 	if sf != sr {
 		res.Fail("grouping", key, fmt.Sprintf("%s parses as %s; the operator table groups it as %s (%s)", flatSrc, sf, sr, refSrc), nil)
+	}
+	// the grouping is a matter of the operators, not of how the tokens are laid out: without any blank that can
+	// be left out (not(a) * b), and with line breaks everywhere
+	for _, pol := range []gen.Policy{gen.Tight{}, gen.Wide{}} {
+		src := "{{ " + gen.ExprSourceWith(flat, pol) + " }}" // (the blanks at the delimiters stay: {{- is a trim marker)
+		res.Evals++
+		tp, ep := parse.Parse(src)
+		if ep != nil {
+			res.Fail("flat-parse", key, fmt.Sprintf("%q does not parse (%v) although %s does", src, ep, flatSrc), nil)
+		} else if sp := astShape(tp.Root()); sp != sr {
+			res.Fail("grouping", key, fmt.Sprintf("%q parses as %s; the operator table groups it as %s (%s)", src, sp, sr, refSrc), nil)
+		}
 	}
 	// (2) rendering under valuations
 	k := len(c.ops)
